@@ -26,6 +26,12 @@ impl Rng {
     pub fn chance(&mut self, num: usize, den: usize) -> bool {
         self.below(den) < num
     }
+    pub fn shuffle<T>(&mut self, v: &mut Vec<T>) {
+        for i in (1..v.len()).rev() {
+            let j = self.below(i + 1);
+            v.swap(i, j);
+        }
+    }
     pub fn pick<'a, T>(&mut self, v: &'a [T]) -> &'a T {
         &v[self.below(v.len())]
     }
